@@ -39,6 +39,8 @@ type Prog struct {
 	LoadS      float64
 
 	InlineSteps []inlineStep // non-empty: this is the helper-inlined view (inlineview.go)
+	renamedFrom map[string]string        // current "rel.declName" -> reference name it is the renaming of
+	renamedTo   map[string]*ssa.Function // reference FnName -> the function that now carries another name
 
 	closureSites map[*ssa.Function][]*ssa.MakeClosure
 	callersOf    map[*ssa.Function][]ssa.CallInstruction // static + closure-resolved call sites
@@ -154,6 +156,7 @@ func loadProgOverlay(repo string, overlay map[string][]byte) (*Prog, error) {
 		return a.String() < b.String()
 	})
 	p.indexCalls()
+	p.indexRenames()
 	p.LoadS = time.Since(t0).Seconds()
 	theProg = p
 	return p, nil
@@ -234,7 +237,39 @@ func (p *Prog) Fn(rel, name string) *ssa.Function {
 			return fn
 		}
 	}
+	// the anchor may have been renamed: an unambiguous match (same package, receiver type and
+	// signature) between a vanished reference function and a function that is not on the list
+	if fn := p.renamedTo[want]; fn != nil {
+		return fn
+	}
 	return nil
+}
+
+// indexRenames fills renamedFrom/renamedTo from the reference list.
+func (p *Prog) indexRenames() {
+	p.renamedFrom = map[string]string{}
+	p.renamedTo = map[string]*ssa.Function{}
+	if referenceFns == nil {
+		return
+	}
+	present := map[string]string{}
+	byKey := map[string]*ssa.Function{}
+	for _, fn := range p.fns {
+		if fn.Synthetic != "" || fn.Parent() != nil {
+			continue
+		}
+		obj, _ := fn.Object().(*types.Func)
+		if obj == nil {
+			continue
+		}
+		k := p.FnName(fn)
+		present[k] = sigString(obj)
+		byKey[k] = fn
+	}
+	for newKey, oldKey := range renamedFunctions(referenceFns, present) {
+		p.renamedFrom[newKey] = oldKey
+		p.renamedTo[oldKey] = byKey[newKey]
+	}
 }
 
 // FnsIn returns the repository source functions (no synthetic wrappers) of
